@@ -168,14 +168,22 @@ def run(ctx, model):
             except refpath.BadPath as e:
                 got, rest = str(e), None
             # a bytes value keeps its width: compare values only
-            if got is None or [(k, t, v) for (k, t, v) in got] != want or rest != b"":
+            if got is None or isinstance(got, str) or [(k, t, v) for (k, t, v) in got] != want or rest != b"":
                 ctx.violation("request-path-wrong", {"kind": "reqpath", "class": c, "instance": i, "attribute": a},
                               "%s parses to %r, wanted %r" % (r, got, want))
     # ---- tag paths
+    again = []
     for _ in range(ctx.budget(1500, 15000)):
-        tag, intent = gen_tag(rng)
-        use_ids = rng.random() < 0.5
-        inst = rng.choice([0, 0, 1, 77, 300, 70000])
+        if again:
+            # the same request string again, for another symbol instance / addressing mode (another controller, or the
+            # same one after a download): the path is a function of its arguments, not of what was asked before
+            tag, intent, inst, use_ids = again.pop()
+        else:
+            tag, intent = gen_tag(rng)
+            use_ids = rng.random() < 0.5
+            inst = rng.choice([0, 0, 1, 77, 300, 70000])
+            if rng.random() < 0.25:
+                again.append((tag, intent, rng.choice([2, 0x12, 0x2F, 256, 65536, 0]), rng.random() < 0.7))
         info = {"instance_id": inst} if inst else {}
         r = call(tag_request_path, tag, info, use_ids)
         ctx.case("tag_path", ("tag", tag, inst, use_ids))
@@ -211,6 +219,62 @@ def run(ctx, model):
     for (stream, case, impl), out in zip(pend, outs):
         if core.norm_err(out) != core.norm_err(impl):
             ctx.mismatch(stream, {"case": repr(case)[:300]}, impl[:200], out[:200])
+    run_session_paths(ctx, model)
+
+
+def run_session_paths(ctx, model):
+    """every request path a LogixDriver session puts on the wire — open() with its uploads (paged symbol lists per scope,
+    template attribute and template reads), then reads and writes — parsed by the independent parser: each must be a
+    well-formed padded EPATH; the paths of the symbol-list requests must be exactly [program name] + class 0x6B +
+    instance, whatever page of the upload they ask for."""
+    import logixgen as lg
+    from props import logix as lx
+    rng = ctx.rng
+    for i in range(ctx.budget(12, 120)):
+        p = lg.gen_project(rng)
+        if not p.get("pages"):
+            p["pages"] = [rng.choice([1, 2, 3])]          # make the symbol list span several replies
+        sess = lx.Session(model, p, conn_large=rng.random() < 0.6, init_program_tags=rng.random() < 0.8)
+        ctx.case("session-paths", ("sp", i))
+        if sess.open_error is None:
+            try:
+                tags = [r[0] for r in (lx.gen_read(rng, p) for _ in range(6)) if r]
+                if tags:
+                    core.with_budget(60, sess.d.read, *tags)
+            except BaseException as e:  # noqa
+                if isinstance(e, (KeyboardInterrupt, SystemExit)):
+                    raise
+        n_list = 0
+        for k, f in enumerate(sess.sock.frames):
+            if len(f) < 44:
+                continue
+            if f[:2] == b"\x70\x00":
+                mr = f[46:]
+            elif f[:2] == b"\x6f\x00":
+                mr = f[40:]
+            else:
+                continue
+            if len(mr) < 2:
+                continue
+            svc = mr[0]
+            case = {"index": i, "frame_index": k, "service": svc, "request": mr[:60].hex()}
+            try:
+                segs, rest = refpath.parse_request_path(mr[1:])
+            except refpath.BadPath as e:
+                ctx.violation("emitted-path-malformed", case, str(e))
+                break
+            ctx.count("session-paths/service/%#x" % svc)
+            if svc == 0x55:
+                n_list += 1
+                body = [x for x in segs]
+                if body and body[0][0] == "symbol":
+                    body = body[1:]
+                ok = len(body) == 2 and body[0] == ("logical", "class_id", 0x6B) and body[1][:2] == ("logical", "instance_id")
+                if not ok:
+                    ctx.violation("symbol-list-path-wrong", case, "parses to %r, wanted [program] + class 0x6B + instance" % (segs,))
+                    break
+        ctx.count("session-paths/symbol-list-requests", n_list)
+        sess.close()
 
 
 def _is_ipv4(s):
